@@ -6,8 +6,8 @@ hail/hail/src/is/hail/variant/Call.scala (Call, Call0, Call1, Call2), Genotype.s
 
 Tie: T on both sides. The Scala `def`s (arithmetic one-liners and small blocks) are re-parsed from the current source text and
 translated to Gallina with explicit 32-bit wrap-around and exceptions as `None`; the Python functions are translated from their
-AST. Both land in coq/generated/C34/Gen.v; CallPacking/Lemmas.v proves each generated function equal to a hand model and the
-property theorems about the hand models. The Python half is additionally run (real hail.expr.types.tcall under the loader)
+AST. Both land in coq/generated/C34/Gen.v; CallPacking/LemmasScala.v and LemmasPy.v prove that every generated function meets its
+arithmetic specification on the engine's range (so a semantic edit of a source breaks a lemma) and Lemmas.v derives the property theorems. The Python half is additionally run (real hail.expr.types.tcall under the loader)
 against the generated definitions as a smoke test; the Scala half cannot be executed here (no Scala toolchain): it is
 MODELLED from its source text, never run.
 """
